@@ -26,6 +26,14 @@ Theorem C14_no_match_zero : forall O pl lib so name,
 Proof. exact match_none. Qed.
 Print Assumptions C14_no_match_zero.
 
+(* dlopen(): match_pattern_module lets mcount_dynamic_dlopen skip a library only when no pattern of the
+   list can apply to any of its symbols *)
+Theorem C14_module_skip_sound : forall pl path so,
+  match_pattern_module pl path so = false ->
+  forall O name, match_pattern_list O pl path so name = 0%Z.
+Proof. exact module_skip_sound. Qed.
+Print Assumptions C14_module_skip_sound.
+
 (* the string uftrace builds from -P/-U options (';'-joined, '!' for -U) parses back into one list
    element per option, in order, with the option's polarity, pattern and @module *)
 Theorem C14_cli_options_in_order : forall O def t o l,
